@@ -47,7 +47,19 @@ def shard(col, shard_i, ngrammars, ninputs, full):
     cases = []
     for gi in range(ngrammars):
         lrec = (gi % 3 == 2)
-        if lrec:
+        if gi % 6 == 1:
+            # twin rules: names that differ only by underscores / case, tried at the same position with different outcomes
+            base = rng.choice(['item', 'pair', 'tok'])
+            twin = rng.choice(['_' + base, base + '_', '_' + base + '_', base.upper()])
+            body1 = ('seq', [('pat', r'[a-z]+'), ('tok', rng.choice(['+', '!']))])
+            body2 = ('pat', r'[a-z]+') if rng.random() < 0.5 else ('seq', [('pat', r'[a-z]+'), ('opt', ('tok', ','))])
+            first, second = ((twin, body1), (base, body2)) if rng.random() < 0.5 else ((base, body1), (twin, body2))
+            g = {'rules': [('start', [], ('seq', [('choice', [('seq', [('call', first[0]), ('call', second[0])]), ('call', second[0]), ('call', first[0])]), 'eof'])),
+                           (first[0], [], first[1]), (second[0], [], second[1])], 'directives': {}, 'keywords': []}
+            texts = ['x', 'x +', 'x + y', 'x!', 'x ! y ,', 'ab', 'ab,', ''][:ninputs]
+            col.count('grammar.twins')
+            lrec = False
+        elif lrec:
             g, kind = G.lrec_grammar(rng)
             texts = G.lrec_inputs(rng, ninputs)
             col.count('grammar.lrec.' + kind)
@@ -94,6 +106,9 @@ def shard(col, shard_i, ngrammars, ninputs, full):
             outs.append((c, o))
             if c.settings.parseinfo and io[0] == 'ok':
                 col.count('parseinfo.on')
+        if not outs:
+            continue
+        outs = [(c, o) for c, o in outs if o[0] != 'timeout']     # running time is not part of the property (no verdict)
         if not outs:
             continue
         ref_c, ref = outs[0]
